@@ -489,6 +489,69 @@ def width_kept(known, part):
                                   {"a": ua, "b": ub, "dtype": dt, "result_dtype": str(np.asarray(r).dtype), "scale_type": type((rg or a.units.registry).lut[ua.split("*")[0]][0]).__name__ if ua in (rg or a.units.registry).lut else "?"})
 
 
+
+def list_operands(known, part):
+    """Python lists / tuples of integer-typed quantities written in different commensurable units, as constructor argument and as
+    operand of mixed-unit binary ufuncs: the items are converted to the first item's unit as floating-point numbers, never written
+    back into an integer buffer"""
+    from fractions import Fraction as Fr
+
+    from unyt import unyt_array, unyt_quantity
+
+    SC = {"km": Fr(1000), "m": Fr(1), "cm": Fr(1, 100), "mm": Fr(1, 1000), "hr": Fr(3600), "min": Fr(60), "s": Fr(1)}
+    item_sets = [[(1, "km"), (500, "m")], [(3, "m"), (1, "km"), (25, "cm")], [(2, "hr"), (45, "min"), (30, "s")], [(7, "cm"), (3, "mm"), (2, "m"), (7, "cm")],
+                 [(1, "km"), (1500, "m"), (1, "km")]]
+    for dt in ("int8", "int16", "int32", "int64", "uint8", "uint16", "uint32", "uint64", "pyint", "float32"):
+        for items in item_sets:
+            if dt.endswith("int8") and any(abs(v) > 127 for v, _ in items):
+                continue
+            mkv = (lambda v: v) if dt == "pyint" else (lambda v: np.dtype(dt).type(v))
+            for container in (list, tuple):
+                seq = lambda: container(unyt_quantity(mkv(v), u) for v, u in items)  # noqa: E731
+                u0 = items[0][1]
+                want = [Fr(v) * SC[u] / SC[u0] for v, u in items]
+                lhs_vals = [2, 1, 5, 3][: len(items)]
+                lhs = lambda: unyt_array(np.array(lhs_vals, dtype="int64" if dt == "pyint" else dt), u0)  # noqa: E731
+                forms = {
+                    "unyt_array(seq)": (lambda: unyt_array(seq()), want),
+                    "np.add(arr, seq)": (lambda: np.add(lhs(), seq()), [Fr(a) + w for a, w in zip(lhs_vals, want)]),
+                    "np.subtract(seq, arr)": (lambda: np.subtract(seq(), lhs()), [w - Fr(a) for a, w in zip(lhs_vals, want)]),
+                    "arr + seq": (lambda: lhs() + seq(), [Fr(a) + w for a, w in zip(lhs_vals, want)]),
+                    "np.maximum(arr, seq)": (lambda: np.maximum(lhs(), seq()), [max(Fr(a), w) for a, w in zip(lhs_vals, want)]),
+                    "arr >= seq": (lambda: lhs() >= seq(), [Fr(a) >= w for a, w in zip(lhs_vals, want)]),
+                    "np.less(seq, arr)": (lambda: np.less(seq(), lhs()), [w < Fr(a) for a, w in zip(lhs_vals, want)]),
+                    "np.hstack([arr, unyt_array(seq)])": (lambda: np.hstack([lhs(), unyt_array(seq())]), [Fr(a) for a in lhs_vals] + want),
+                }
+                for nm, (fn, w) in forms.items():
+                    part.ev()
+                    try:
+                        r = fn()
+                    except Exception as e:
+                        part.count(f"list operand refused: {nm} ({type(e).__name__})")
+                        continue
+                    part.nt(("list-operands", dt, nm, container.__name__, len(items)))
+                    det = {"form": nm, "dtype": dt, "container": container.__name__, "items": [f"{v} {u}" for v, u in items], "got": repr(r)[:160]}
+                    got = np.asarray(r)
+                    if isinstance(w[0], bool):
+                        if got.tolist() != w:
+                            core.classify(known, part, f"C17:list-operands:wrong-comparison:{nm}", dict(det, want=w))
+                        continue
+                    if hasattr(r, "units") and str(r.units) != u0:
+                        scale = SC.get(str(r.units))
+                        if scale is None:
+                            part.count("list operand: result in an unexpected unit, not judged")
+                            continue
+                        w = [x * SC[u0] / scale for x in w]
+                    if any(x.denominator != 1 for x in w) and got.dtype.kind in "iu":
+                        core.classify(known, part, f"C17:list-operands:integer-result:{nm}", dict(det, want=[float(x) for x in w]))
+                        continue
+                    tol = 2e-3 if dt.endswith("8") or dt.endswith("16") else 1e-6
+                    if got.shape != (len(w),) or not all(abs(float(g) - float(x)) <= tol * max(1.0, abs(float(x))) for g, x in zip(got, w)):
+                        core.classify(known, part, f"C17:list-operands:wrong-value:{nm}", dict(det, want=[float(x) for x in w]))
+                    if len(part.samples) < 1:
+                        part.sample({"list operand": det["items"], "form": nm, "result": repr(r)[:100]})
+
+
 def part_grid(payload):
     """deterministic dtype x pair x route grid with edge values"""
     known = core.Known("C17")
@@ -498,6 +561,7 @@ def part_grid(payload):
     if payload.get("equiv_ints"):
         equiv_ints(known, part)
         width_kept(known, part)
+        list_operands(known, part)
     for dt in payload["dtypes"]:
         if dt in INT_DT:
             info = np.iinfo(dt)
